@@ -275,6 +275,15 @@ func genGovTraffic(r *Run, kind string) (Step, bool) {
 			} else {
 				ratio := []string{"0", "0.05", "0.1", "0.25", "0.5", "1"}[rng.IntN(6)]
 				quorum := []string{"0.05", "0.2", "0.334", "0.5", "0.67", "0.9", "1"}[rng.IntN(7)]
+				if rng.IntN(100) < 15 {
+					// malformed values: must be refused, whatever else the message carries
+					bad := []string{"EMPTY", "abc", "1.5", "-0.1", "SPACE", "EMPTY"}[rng.IntN(6)]
+					if rng.IntN(2) == 0 {
+						quorum = bad
+					} else {
+						ratio = bad
+					}
+				}
 				spec = gitem("custom", "url", url, "ratio", ratio, "period", 200+rng.IntN(5000), "quorum", quorum)
 			}
 		case "store":
